@@ -181,3 +181,36 @@ Definition code_fragments : list string := ["expr"; "block"; "stmt"; "tt"; "item
 
 Definition metavar_harmless (e : (string * string) * string) : bool :=
   negb (existsb (String.eqb (snd e)) code_fragments).
+
+(** ** [unsize!] only performs coercions that rustc allows between RAW pointers
+
+    [unsize!(gc => U)] type-checks [|p: *const _| -> *const U { p }]: between raw pointers the only
+    implicit coercions are unsizing ones ([T: Unsize<U>]) -- the address is kept.  Were the closure over
+    references ([&T -> &U]), deref coercion would apply too ([&String -> &str], [&Box<T> -> &T],
+    [&Gc<T> -> &T]): the "unsized" pointer would point INTO or AWAY from the original value, to
+    something that is not a Gc allocation at all.  Hence: the closure bound of every
+    [__coerce_unchecked] is [FnOnce( *const _ ) -> *const _], and the macro's transcriber is the one
+    whose closure is annotated with raw pointer types. *)
+Definition is_const_ptr (t : ty) : bool := match t with TPtr false _ => true | _ => false end.
+
+Definition raw_ptr_closure (b : bound) : bool :=
+  match b with
+  | BFn _ "FnOnce" [a] r => is_const_ptr a && is_const_ptr r
+  | _ => false
+  end.
+
+Definition coerce_fn_ok (f : fnsig) : bool :=
+  fs_unsafe f
+  && match g_tps (fs_g f) with
+     | [tp] => match tp_bounds tp with [b] => raw_ptr_closure b | _ => false end
+     | _ => false
+     end
+  && match g_where (fs_g f) with [] => true | _ => false end.
+
+Definition coerce_fns (fs : list fnsig) : list fnsig :=
+  filter (fun f => String.eqb (fs_name f) "__coerce_unchecked") fs.
+
+Definition unsize_macro_ok (rules : nat) (matcher text : string) : bool :=
+  Nat.eqb rules 1
+  && String.eqb matcher "$ gc : expr => $ ty : ty"
+  && String.eqb text "{ let gc = $ gc ; unsafe { $ crate :: __CoercePtrInternal :: __coerce_unchecked (gc , | p : * const _ | -> * const $ ty { p }) } }".
